@@ -50,6 +50,18 @@ type command struct {
 type sequence struct {
 	cmds   []command
 	direct bool // run through the hooks with raw float64 weights instead of config text
+	noise  bool // text mode: other routes (another host, another path of the same host) around the commands
+}
+
+// nonFinite reports whether a weight of the sequence is NaN or +-Inf: since /repo 0b2a40e the
+// config language rejects those, they reach weighTargets only through the Go API.
+func (s *sequence) nonFinite() bool {
+	for _, c := range s.cmds {
+		if math.IsNaN(c.w) || math.IsInf(c.w, 0) {
+			return true
+		}
+	}
+	return false
 }
 
 func contains(src, dst []string) bool {
@@ -70,7 +82,16 @@ func contains(src, dst []string) bool {
 // text renders the sequence in fabio's config language.
 func (s *sequence) text() string {
 	var sb strings.Builder
-	for _, c := range s.cmds {
+	if s.noise {
+		// routes the commands must not touch, and that must not touch the observed route
+		fmt.Fprintf(&sb, "route add n0 other.test/ http://n0.other.test:1/ weight 0.3\n")
+		fmt.Fprintf(&sb, "route add s0 %s/sub http://n1.c04.test:1/ weight 0.9 tags \"a,b,c\"\n", host)
+		fmt.Fprintf(&sb, "route add s1 other.test/ http://n2.other.test:1/ tags \"c\"\n")
+	}
+	for k, c := range s.cmds {
+		if s.noise && k == len(s.cmds)/2 {
+			fmt.Fprintf(&sb, "route weight s0 %s/sub weight 0.2\nroute weight other.test/ weight 0.7 tags \"c\"\nroute weight n0 other.test/ weight 0.6\n", host)
+		}
 		switch c.kind {
 		case "add":
 			fmt.Fprintf(&sb, "route add %s %s/ %s", c.tg.svc, host, c.tg.url)
@@ -573,6 +594,29 @@ func main() {
 			run.Exclude("generated sequence leaves no target / a route weight command matches nothing")
 			return
 		}
+		if !s.direct && s.nonFinite() {
+			// /repo 0b2a40e: parseWeight rejects NaN and +-Inf, NewTable must fail; the sequence itself
+			// is then run at the level such weights can still occur (addTarget / setWeight through the hooks)
+			var bits []string
+			for _, c := range s.cmds {
+				if c.kind != "del" {
+					bits = append(bits, zb(c.w))
+				}
+			}
+			var err error
+			p, _ := vh.Recover(func() { _, err = route.NewTable(bytes.NewBufferString(s.text())) })
+			impl := vh.Ok(vh.Bool(err == nil))
+			if p {
+				impl = vh.Panic
+			}
+			run.Add(class+"-text-rejected", vh.App("CParse", vh.List(bits), impl),
+				map[string]interface{}{"config": s.text(), "newtable_error": fmt.Sprint(err), "panic": p})
+			s.direct = true
+			class += "-hook"
+		}
+		if !s.direct && r.Intn(4) == 0 {
+			s.noise = true
+		}
 		o := observe(run, s, cursorOf(r))
 		if full {
 			nFull++
@@ -798,6 +842,10 @@ func main() {
 		{"1e308", "1e308"}, {"1e308", "1e308", ""}, {"1.7e308", "1e307", "0.5"}, {"1e308"}, {"1e308", ""},
 		{"5e-324"}, {"5e-324", ""}, {"5e-324", "5e-324"}, {"1e-310"}, {"2e-308"}, {"1e-320", "1e-320", "1e-320"},
 		{"NaN"}, {"NaN", ""}, {"nan", "0.5"}, {"-Inf", ""}, {"-Inf"}, {"1e300", "1e-300"}, {"1e-300"}, {"4e-309", "4e-309"},
+		// proportional scaling lost to the even fallback (finding F-C04-3): 1/3 : 2/3 and 0.4 : 0.6 expected
+		{"5e-324", "1e-323"}, {"1e-323", "5e-324", "1.5e-323"}, {"1e308", "1.5e308"}, {"1.7e308", "1e307", "0.5"}, {"3e-320", "1e-320"},
+		// just inside the range where 1/sumFixed is finite: proportional
+		{"6e-309", "1.2e-308"}, {"1e-300", "3e-300"}, {"4e307", "1.2e308"},
 	}
 	for _, ws := range edge {
 		emit("float-edge", &sequence{cmds: addsOf(r, ws)}, false)
